@@ -9,15 +9,15 @@ from ..report import Ctx
 from .common import DECIDER, RANDOM_SOURCE
 
 LEVEL_TEXT = (
-    "Static rules: (R1) def-use of Grammar.update_weights: for every rule the accumulator is reset, sums exactly the "
-    "(updated) weights of that rule's productions, and each of those weights is divided by that accumulator and "
-    "written back to its class once; get_weights gives unweighted productions exactly the default 1.0 (a declared 0 "
-    "stays 0); idempotence follows for disjoint rules; (R2) production weights are written only by the weight "
-    "decorator and update_weights, and extract_grammar normalises exactly when some class is weighted; (R3) a "
-    "zero-weight option is unreachable in the weighted choice (the draw stays strictly below the total and is compared "
-    "strictly - the C18.R3 obligations for choice_weighted) and every weight-aware chooser passes weights aligned with "
-    "the alternatives it passes. Numerical preservation of ratios in floating point and proportional selection are not "
-    "decided."
+    "(R1) Grammar.update_weights is interpreted (finite model, exact rational arithmetic, helpers and staticmethods inlined) "
+    "on two rules (R1 -> p1 | p2, R2 -> p3 | p4 | p5) with raw weights, a learning rate and extra weights: afterwards every "
+    "production carries (raw + rate * extra) / (sum of that over its own rule), the weights of each rule sum to exactly one, "
+    "and the value is written back to every production, not only to the listed subtypes (a failed assertion or division by "
+    "zero in the model is a violation); get_weights counts an unweighted production as exactly 1.0 and keeps a declared 0; "
+    "(R2) production weights are stored only by the weight decorator and update_weights, and extract_grammar normalises "
+    "exactly when some class declares a weight; (R3) choice_weighted never returns a zero-weight option (C18.R3 model on six "
+    "weight vectors plus the affine 'draw < total' proof) and the weights are aligned with the alternatives at every call "
+    "site. Floating-point rounding of the ratios is not decided."
 )
 UPDATE = "geneticengine.grammar.grammar:Grammar.update_weights"
 GETW = "geneticengine.grammar.grammar:Grammar.get_weights"
